@@ -1,4 +1,5 @@
 import Tahoe.Immutable.FetchLemmasC46
+import Tahoe.Immutable.SegLemmas
 /-! C46 — immutable reads always terminate (property theorems over the DownloadNode segment queue
 `Tahoe.Fetch.Node` on top of the SegmentFetcher event system; helper lemmas in
 `Tahoe/Immutable/FetchLemmas*.lean`).
@@ -11,7 +12,33 @@ active fetcher (no queued loop, the finder said `no_more_shares`, every started 
 terminal event).
 
 The theorems are about the code with `fixes/C46-active-segment.diff` applied (`Node.fixed = true`);
-`unfixed_stuck_counterexample` shows that the unchanged tree violates them. -/
+`unfixed_stuck_counterexample` shows that the tree before that fix violates them.
+
+## Coverage of the statement (properties.jsonl C46)
+
+| clause of the statement | covered by |
+|---|---|
+| every read eventually completes, delivering its data or an error | read layer: `read_never_idle`, `read_terminates_when_answered` (a started read that is not paused always has a request outstanding or has fired); node layer: `no_stuck_state` (every request is retired at quiescence); fetcher layer: `Struct.quiet` inside `no_stuck_state`, `do_loop_terminates`.  Composition of the layers (Deferred of a request fires ⇔ request retired) is by hand — `every_read_terminates_partial` below |
+| … for any pattern of server failures, corrupted or inconsistent shares | node/fetcher theorems allow every answer for every started share in any order (`NEvOk` only forbids OVERDUE from a share that is not outstanding); decode / ciphertext-hash failures = `badSegs` in `no_stuck_state`; the mapping from server faults to share events: monitor only |
+| … late answers | OVERDUE events in the fetcher model (theorem); finder / DYHB timers: monitor only |
+| … concurrent reads on the same file object | `no_stuck_state` quantifies over any interleaving of `getSegment` requests (several per segment, several segments) and cancels; each read is its own `Seg` (`read_never_idle`) — concurrency between reads exists only through the node queue |
+| a read never hangs once every server has answered or failed | `no_stuck_state` + `read_terminates_when_answered`; `NQuiescent` = "every server has answered or failed" at the fetcher interface; that finder and shares reach that state: assumption, monitor only |
+| a failed read does not prevent later reads from completing | `later_reads_progress` (after any history incl. failed segments a new request is accepted by a fresh running fetcher and retired at quiescence); `unfixed_stuck_counterexample` (the code before the fix violated it) |
+| quantifier: decode failures and ciphertext hash mismatches followed by further reads on the same node | `no_stuck_state` / `later_reads_progress` with `badSegs`; end-to-end: crafted shares (monitor) |
+| wrong segment-size guess / BadSegmentNumberError retry (seeded C46-c) | `bad_segnum_retry`, `read_never_idle`; `read_writes_exact_range` |
+
+Remaining assumptions: the environment predicates `NEvOk`/`NQuiescent` and `SEvOk` (answers only for
+outstanding requests; every queued `eventually` turn runs); ShareFinder answers every
+`want_more_shares` with `add_shares` or `no_more_shares` (finder.py and its timers not modelled);
+every `get_block` gets a terminal event (share.py not modelled; true for dead shares since 4f1ea1b);
+`eventually(self._deliver, …)` fires the request's Deferred exactly once (Twisted/foolscap); decode in
+the CPU thread pool is one atomic step; a consumer that pauses a read resumes it.
+
+`every_read_terminates_partial` (not stated as one theorem): "in every quiescent state of the whole
+stack every read's Deferred has fired".  Proved per layer (above).  Missing: one Lean system composing
+`Seg`s with `Node` (routing of `get_segment`/`_deliver`) and the induction that a waiting read's request
+id is in `requests ∪ retired-undelivered`.
+-/
 namespace Tahoe.C46
 open Tahoe.Fetch
 
@@ -99,6 +126,76 @@ theorem do_loop_terminates (s : Fetcher) (h : Out.exc .fuel ∉ s.out) : Out.exc
     · show Out.exc .fuel ∉ (stop s).out; rw [stop_out]; exact h
     · exact whileLoop_fuel h _ (mu_lt_fuelFor s)
 
+
+/-! ### the read layer (`Segmentation`) -/
+
+/-- a fresh `Segmentation(node, offset, size, …)` -/
+def freshRead (segsize guess offset size : Nat) : Seg :=
+  { segsize := segsize, guess := guess, offset := offset, size := size }
+
+/-- **C46 (4).**  A read never goes idle: after `start()` and any history of answers (right segment,
+wrong segment, `BadSegmentNumberError`, any other failure — with the segment size known or not at
+each moment), pauses, resumes, queued turns and `stopProducing`, a read whose Deferred has not fired
+is alive and — unless its consumer paused it — has a `get_segment` request outstanding or a turn
+queued.  (`_request_retired` runs on every outcome; a seeded change that skipped it on the
+`BadSegmentNumberError` path made exactly this false.) -/
+theorem read_never_idle (segsize guess offset size : Nat) (k0 : Bool) (es : List (SEv × Bool))
+    (hv : SegValid (segStep (freshRead segsize guess offset size) k0 .start) es) :
+    SegLive (segRun (segStep (freshRead segsize guess offset size) k0 .start) es) :=
+  seglive_run es _ (seglive_start _ k0 rfl) hv
+
+/-- **C46 (5).**  Consequently: once every request the read made has been answered (the node layer
+guarantees that at quiescence, `no_stuck_state`), no turn is queued and the consumer is not pausing
+it, the read's Deferred has fired. -/
+theorem read_terminates_when_answered (segsize guess offset size : Nat) (k0 : Bool) (es : List (SEv × Bool))
+    (hv : SegValid (segStep (freshRead segsize guess offset size) k0 .start) es)
+    (hidle : (segRun (segStep (freshRead segsize guess offset size) k0 .start) es).active = none)
+    (hturn : (segRun (segStep (freshRead segsize guess offset size) k0 .start) es).turns = 0)
+    (hhungry : (segRun (segStep (freshRead segsize guess offset size) k0 .start) es).hungry = true) :
+    (segRun (segStep (freshRead segsize guess offset size) k0 .start) es).result.isSome = true := by
+  have h := read_never_idle segsize guess offset size k0 es hv
+  cases hr : (segRun (segStep (freshRead segsize guess offset size) k0 .start) es).result with
+  | some _ => rfl
+  | none =>
+    rcases (h.1 hr).2 hhungry with h1 | h1
+    · simp [hidle] at h1
+    · omega
+
+/-- **C46 (6).**  The one-shot retry: a request made on a *guessed* segment size that comes back
+with `BadSegmentNumberError` (or as the wrong segment) is followed by a new request computed from the
+real segment size, with no further retry armed; a failure of a request made with the real segment
+size (or any other failure) fires the errback with that failure. -/
+theorem bad_segnum_retry (s : Seg) (e : SegErr) (hr : s.result = none) (ha : s.alive = true)
+    (hh : s.hungry = true) (hsz : s.size ≠ 0) :
+    (s.retryArmed = true → (e = .badSegnum ∨ e = .wrongSegment) →
+      (segStep s true (.failed e)).active = some (if s.offset = 0 then 0 else s.offset / s.segsize) ∧
+      (segStep s true (.failed e)).retryArmed = false ∧ (segStep s true (.failed e)).result = none) ∧
+    (s.retryArmed = false → ∀ k, (segStep s k (.failed e)).result = some (some e)) := by
+  constructor
+  · intro harm he
+    have hcond : (s.retryArmed && (decide (e = .wrongSegment) || decide (e = .badSegnum))) = true := by
+      rcases he with h | h <;> simp [harm, h]
+    simp only [segStep, segFailure, hcond, if_true, maybeFetchNext, ha, hh, fetchNext, hsz]
+    simp [hr]
+  · intro harm k
+    simp [segStep, segFailure, harm, segError]
+
+/-- **C46 (7) / C03.**  Whatever the guess and whatever the answers: the consumer receives the
+requested range in order without gap or overlap, and the Deferred fires with success only when the
+whole range `[offset, offset+size)` has been written. -/
+theorem read_writes_exact_range (segsize guess offset size : Nat) (k0 : Bool) (es : List (SEv × Bool))
+    (hdone : (segRun (segStep (freshRead segsize guess offset size) k0 .start) es).result = some none) :
+    contigEnd offset (writesOf (segRun (segStep (freshRead segsize guess offset size) k0 .start) es).out)
+      = some (offset + size) := by
+  have h0 : SegRange offset size (freshRead segsize guess offset size) := by
+    simp [SegRange, freshRead, writesOf, contigEnd]
+  have h := segrange_run es _ (segrange_step k0 .start h0)
+  have hz := h.2.2 hdone
+  have := h.1
+  rw [h.2.1]
+  congr 1
+  omega
+
 /-! ### concrete instances -/
 
 private def sh (id shnum server rtt : Nat) : Share := { id := id, shnum := shnum, server := server, rtt := rtt }
@@ -129,5 +226,35 @@ theorem unfixed_stuck_counterexample :
     (nrun (unfixedNode 1 2 [1]) exRun).retired = [(7, .decodeErr)] := by
   refine ⟨by simp [NValidFrom, NEvOk, exRun], ?_⟩
   decide
+
+
+instance (s : Seg) (e : SEv) : Decidable (SEvOk s e) := by
+  cases e <;> unfold SEvOk <;> infer_instance
+
+instance decSegValid : ∀ (es : List (SEv × Bool)) (s : Seg), Decidable (SegValid s es)
+  | [], _ => isTrue trivial
+  | (e, k) :: es, s =>
+    have := decSegValid es (segStep s k e)
+    by unfold SegValid; infer_instance
+
+/-- the seeded `segmentation.py` history: 3000-byte file, 2000-byte segments, reader guesses 1000,
+read(2500, 50) on a fresh node: segment 2 does not exist → retry with the real size → segment 1. -/
+private def exRead : List (SEv × Bool) :=
+  [(.failed .badSegnum, true), (.segment 2000 1000 false, true)]
+
+example : SegValid (segStep (freshRead 2000 1000 2500 50) false .start) exRead ∧
+    (segStep (freshRead 2000 1000 2500 50) false .start).active = some 2 ∧
+    (segRun (segStep (freshRead 2000 1000 2500 50) false .start) exRead).result = some none ∧
+    (segRun (segStep (freshRead 2000 1000 2500 50) false .start) exRead).out =
+      [.getSegment 2, .getSegment 1, .write 2500 50, .done] := by decide
+
+/-- guess larger than the real size: the guessed segment 0 is the wrong one for offset 70 -/
+example : (segRun (segStep (freshRead 64 1000 70 10) false .start)
+      [(.segment 0 64 false, true), (.segment 64 64 false, true)]).out =
+    [.getSegment 0, .getSegment 1, .write 70 10, .done] := by decide
+
+/-- a second bad answer after the retry is an error, not a hang -/
+example : (segRun (segStep (freshRead 2000 1000 2500 50) false .start)
+      [(.failed .badSegnum, true), (.failed .badSegnum, true)]).result = some (some .badSegnum) := by decide
 
 end Tahoe.C46
